@@ -85,11 +85,8 @@ func findTypesInPackage(
 			continue
 		}
 
-		// We want named types (struct, int, string, etc.)
-		namedType, ok := typeName.Type().(*types.Named)
-		if !ok {
-			continue
-		}
+		// An alias declaration (type A = T) denotes T and has T's method set
+		namedType := types.Unalias(typeName.Type())
 
 		// Determine underlying type for debugging/reporting.go
 		underlyingType := getUnderlyingTypeName(namedType.Underlying())
@@ -102,7 +99,7 @@ func findTypesInPackage(
 			Package:        pkg.Path(),
 			UnderlyingType: underlyingType,
 			Methods:        methods,
-			IsInterface:    types.IsInterface(namedType),
+			IsInterface:    pointerHasNoMethods(namedType),
 		}
 
 		result = append(result, model)
@@ -137,15 +134,22 @@ func getUnderlyingTypeName(t types.Type) string {
 	}
 }
 
+// pointerHasNoMethods reports whether a pointer to t has an empty method set: t is an interface type,
+// or (reachable only through an alias declaration) itself a pointer type
+func pointerHasNoMethods(t types.Type) bool {
+	_, isPointer := t.Underlying().(*types.Pointer)
+	return isPointer || types.IsInterface(t)
+}
+
 // extractMethodsFromNamedType extracts all methods (value + pointer receivers)
-func extractMethodsFromNamedType(named *types.Named) []TypeMethod {
+func extractMethodsFromNamedType(named types.Type) []TypeMethod {
 	var methods []TypeMethod
 
 	// Get method set for *T (includes both T and *T receivers)
 	ptrType := types.NewPointer(named)
 	methodSet := types.NewMethodSet(ptrType)
 	valueMethodSet := types.NewMethodSet(named)
-	if types.IsInterface(named) {
+	if pointerHasNoMethods(named) {
 		// *I has no methods at all; the methods of a defined interface type are those of its values
 		methodSet = valueMethodSet
 	}
